@@ -32,6 +32,15 @@ CHECKS['C11'] = ('runtime oracle over complete enumeration (2^32 floats for unar
 CHECKS['C19'] = ('runtime oracle: monotonicity along increasing sweeps, fixed points, range, alpha, round trips against derived bounds; complete enumeration of all 2^24 8-bit RGB triples for the integer YCoCg-R pair',
          'sRGB<->linear (default, explicit gamma, lowp approximation; vec3/vec4; float/double) on dense grids, threshold straddlers and (thorough) every float in [0,1]; HSV and YCoCg round trips on the RGB cube with sector-boundary hues; the integer YCoCg-R pair exhaustively for 8 element types; saturation/luminosity against the documented weights.',
          TRUST, 'DESIGN.md 7/C19')
+CHECKS['C04'] = ('runtime oracle: long double / __float128 Rodrigues-Hamilton reference and the mutual identities of the statement with derived bounds; built for XYZW and WXYZ quaternion storage, gcc/clang, O0/O3',
+         'q*v vs mat3_cast/mat4_cast, quat_cast round trips (all four branches counted), product-of-matrices, angle/axis/angleAxis, eulerAngles round trip with 1/cos(yaw) conditioning, quaternion from two vectors, inverse/conjugate, all 21 eulerAngle builders and 12 extractors, rotate_vector helpers and dual-quaternion transforms, on random unit quaternions, axis-aligned and w~0/w~1 perturbations and gimbal-lock neighbourhoods; a layout op checks member/memory order under both macros.',
+         TRUST, 'DESIGN.md 7/C04')
+CHECKS['C13'] = ('runtime oracle: great-arc reference in long double / __float128 (cross-checked against 256-bit MPFR at start-up), per-evaluation derived tolerance, either branch accepted within rounding of the fallback/flip thresholds; XYZW/WXYZ, SIMD aligned, gcc/clang builds',
+         'slerp (with and without spins), mix, lerp, shortMix, fastMix, squad end points, intermediate, dual-quaternion lerp on unit pairs at separations 1e-9 .. pi-1e-9 on both sides of the linear-fallback threshold, t in [-2,3], k in -3..3: end points, unit norm, arc position, never NaN, symmetry.',
+         TRUST, 'DESIGN.md 7/C13')
+CHECKS['C18'] = ('runtime oracle: loop-based reference implementations; complete enumeration of 8/16-bit domains (values x multiples/shift counts/ranges), all 2^24..2^32 interleave inputs, lattice + random for 32/64-bit',
+         'Power-of-two family, multiples (integer and floating), findNSB, integer log2/sqrt/pow/factorial/mod, mask, fill, rotate, interleave/deinterleave in scalar, vector and vector-scalar forms for i8..u64: every result compared with a loop written from the documentation.',
+         TRUST, 'DESIGN.md 7/C18')
 REASONS = {}
 
 checks = []
